@@ -263,6 +263,33 @@ def find_fn(repo, file, item, macro=None, subst=None, nth=None, trait=None):
                         f.trait = ttrait
                         found.append(f)
                 p += 1
+        if not found and trait is None:
+            # provided (default) methods of a trait definition: `trait Owner { fn name(..) { body } }`
+            p = lo
+            while p < hi:
+                if s.txt(p) == "trait" and s.kind(p) == "ident" and s.txt(p + 1) == owner:
+                    r = p + 2
+                    while r < hi and not (s.kind(r) == "open" and s.txt(r) == "{"):
+                        if s.kind(r) == "open":
+                            r = s.closer(r)
+                        r += 1
+                    if r >= hi:
+                        break
+                    c = s.closer(r)
+                    q = r + 1
+                    while q < c:
+                        if s.kind(q) == "open":
+                            q = s.closer(q) + 1
+                            continue
+                        if s.txt(q) == "fn" and s.kind(q) == "ident" and s.txt(q + 1) == name:
+                            f = _parse_fn(s, q, c, file)
+                            if f:
+                                f.owner = owner
+                                f.trait = None
+                                found.append(f)
+                        q += 1
+                    p = c
+                p += 1
     else:
         p = lo
         while p < hi:
